@@ -35,6 +35,7 @@ class Cfg:
         self.netlist_name = True
         self.reorder = True         # permute libraries / definitions after building
         self.downto = True
+        self.data_all = False       # user data also on netlist, libraries, ports, cables
         self.late = False           # edits of definitions after they were instanced
         self.share = False          # bias children towards definitions that are already instanced
         self.__dict__.update(kw)
@@ -81,7 +82,10 @@ def _bundle(draw, cfg, used, tag):
     if cfg.lower_index and (arr or cfg.scalar_lower_index) and draw(st.booleans()):
         lo = draw(st.integers(0, 5))
     downto = True if not cfg.downto else draw(st.integers(0, 4)) != 0
-    return {"name": name, "w": w, "lo": lo, "arr": bool(arr), "downto": downto}
+    out = {"name": name, "w": w, "lo": lo, "arr": bool(arr), "downto": downto}
+    if cfg.data_all:
+        out["data"] = draw(_data(cfg))
+    return out
 
 
 @st.composite
@@ -160,6 +164,10 @@ def recipes(draw, cfg=None):
         libs[li]["defs"].append(d)
         d["_flat"] = di
     rec = {"libs": libs}
+    if cfg.data_all:
+        rec["data"] = draw(_data(cfg))
+        for lib in libs:
+            lib["data"] = draw(_data(cfg))
     rec["name"] = draw(st.sampled_from(["top_nl", "n"])) if cfg.netlist_name else None
     if cfg.top == "always" or draw(st.integers(0, 4)) != 0:
         # prefer the last (deepest) definition
@@ -222,9 +230,13 @@ def build(rec, policy=None):
     nl = sdn.Netlist()
     if rec.get("name") is not None:
         nl.name = rec["name"]
+    for k, v in (rec.get("data") or {}).items():
+        nl[k] = v
     B.netlist = nl
     for lib in rec.get("libs", []):
         L = nl.create_library()
+        for k, v in (lib.get("data") or {}).items():
+            L[k] = v
         if lib.get("name") is not None:
             try:
                 L.name = lib["name"]
@@ -370,6 +382,8 @@ def _try_name(el, name):
 
 
 def _bundle_attrs(B, r):
+    for k, v in (r.get("data") or {}).items():
+        B[k] = v
     n = len(B.pins) if hasattr(B, "pins") else len(B.wires)
     if n <= 1:
         B.is_scalar = not r.get("arr", False)
